@@ -124,6 +124,7 @@ PROPS['C19'] = dict(
 
 # ------------------------------------------------------------------------------------------------ C20
 PROPS['C20'] = dict(
+    crash_is_violation=False,
     technique='exhaustive enumeration of configurations: 10 libraries x every API function, every header x {C99,C++11}, every public structure field (sizeof/offsetof C vs C++), 20 behavioural dumps',
     level='exploration',
     rule='cases = (API function) x 10 libraries [defined-with-C-linkage must agree], (header, language) compiled alone, (structure|field) sizeof/offsetof C vs C++, '
